@@ -180,7 +180,7 @@ def run(ctx):
     ctx.floor("C05.R4", 1)
 
 
-def transcript_agreement(ctx, rule, rule4):
+def transcript_agreement(ctx, rule, rule4, strict=True):
     iA, iM, iR, iT = (fidx(ctx, C, n) for n in ("A", "M", "R", "T"))
     sA, sS, sC, sD, sJ = (fidx(ctx, SH, n) for n in ("A", "S", "C", "D", "J"))
     # ---- R2: share / verify transcript agreement -----------------------------------------------------
@@ -199,14 +199,24 @@ def transcript_agreement(ctx, rule, rule4):
     gv = mac_gate(engv, retv, 0) or []
     tv = [t for k, t in gv if k == "recv_mac"]
     tr_v = Q.trace_of(tv[0].args[1]) if tv else []
-    ctx.add(rule, "adss::Commune::verify#uses-recv_mac", bool(tv),
-            "Commune::verify's Ok is not established by Strobe::recv_mac over a transcript", at_v)
+    if strict:
+        ctx.add(rule, "adss::Commune::verify#uses-recv_mac", bool(tv),
+                "Commune::verify's Ok is not established by Strobe::recv_mac over a transcript", at_v)
+    elif not tv:
+        # any MAC comparison: take the Strobe transcript the compared value was produced from
+        for t in weak_mac_gate(engv, retv, 0, sJ) or []:
+            outs = Q.find_all(t, lambda z: z.op == "owf" and z.args[0] in ("send_mac", "prf"))
+            if outs:
+                tr_v = Q.trace_of(outs[0].args[1])
+                break
+        ctx.add(rule, "adss::Commune::verify#compares-a-recomputed-mac", bool(tr_v),
+                "Commune::verify's Ok is not established by comparing J with a value derived from a Strobe transcript", at_v)
     ctx.extra["share_mac_transcript"] = Q.show_trace(tr_s, 6)
     ctx.extra["verify_mac_transcript"] = Q.show_trace(tr_v, 6)
     fs, fv = Q.flat_ops(tr_s), Q.flat_ops(tr_v)
     # compare all but the final mac operation
-    body_s = [(k, d) for k, d, _ in fs if k not in ("send_mac",)]
-    body_v = [(k, d) for k, d, _ in fv if k not in ("recv_mac",)]
+    body_s = [(k, d) for k, d, _ in fs if k not in ("send_mac", "recv_mac", "prf")]
+    body_v = [(k, d) for k, d, _ in fv if k not in ("send_mac", "recv_mac", "prf")]
     agree = len(body_s) == len(body_v) and all(a[0] == b[0] and _same(a[1], b[1]) for a, b in zip(body_s, body_v))
     first_diff = None
     for i, (a, b) in enumerate(zip(body_s, body_v)):
